@@ -1,6 +1,6 @@
 // C01-K1 / C04-K4: release by coordinate: `State::release`, `Layout::dequeue(Release(i, j))`.
 
-// @harness name=c01_k1_state_release prop=C01,C04 tier=quick timeout=600
+// @harness name=c01_k1_state_release prop=C01,C04,C10 tier=quick timeout=600
 // @encodes State::release, State::coord, State::clear_on_next_release, CustomEvent::update
 // @bounds one symbolic state of any of the 8 variants (coordinates over 2 rows x 3 columns), one symbolic released coordinate, symbolic prior custom event
 // @assumes none
